@@ -289,3 +289,20 @@ Example C12_nonvacuous_frame :
   map r_num (fr_success fr ++ fr_fail fr ++ fr_warning fr) = [2; 1; 2]%nat /\
   fr_nondet fr = [[mkPoint 20 20 [0; 0]]].
 Proof. vm_compute. repeat split; reflexivity. Qed.
+
+(* ------------------------------------------------------------------------------------------ *)
+(* limit of the general-polygon reading: the counter is a uint8                                *)
+(* ------------------------------------------------------------------------------------------ *)
+(* "winding number <> 0 => inside" fails when the winding number is a multiple of 256: a square ring
+   listed 256 times winds 256 times around its centre, the counter wraps to 0 and the centre is
+   reported OUTSIDE (reproduced against crop_pointcloud).  Box prisms have 4 edges and winding
+   number 1, so the theorems above are not affected. *)
+Definition ex_ring256 : list (Q * Q) := concat (repeat [(0, 0); (2, 0); (2, 2); (0, 2)] 256).
+Definition ex_area256 : list vertex :=
+  map (fun q => (fst q, snd q, 1)) ex_ring256 ++ map (fun q => (fst q, snd q, 0)) ex_ring256.
+Theorem C12_general_polygon_uint8_refuted :
+  exists (area : list vertex) (p : point),
+    area_ok area = true /\ contrib_sum p (edges area) = 256%Z /\ wn area p = 0%Z /\
+    selected area true p = false /\ selected area false p = true.
+Proof. exists ex_area256, (mkPoint 1 1 [(1 # 2)]). vm_compute. repeat split; reflexivity. Qed.
+Print Assumptions C12_general_polygon_uint8_refuted.
